@@ -18,6 +18,7 @@ type Faulty struct {
 	commitErr   error
 	commitApply bool
 	nextErr     error
+	getErr      error
 	lastApplied bool
 }
 
@@ -38,10 +39,25 @@ func (f *Faulty) ArmCommit(err error, apply bool) {
 // ArmNext makes the next Iter.Next fail with err; the element is not consumed.
 func (f *Faulty) ArmNext(err error) { f.mu.Lock(); f.nextErr = err; f.mu.Unlock() }
 
+// ArmGet makes the next Get fail with err.
+func (f *Faulty) ArmGet(err error) { f.mu.Lock(); f.getErr = err; f.mu.Unlock() }
+
+// Get implements storage.KvStorage.
+func (f *Faulty) Get(ctx context.Context, key []byte) ([]byte, error) {
+	f.mu.Lock()
+	e := f.getErr
+	f.getErr = nil
+	f.mu.Unlock()
+	if e != nil {
+		return nil, e
+	}
+	return f.KvStorage.Get(ctx, key)
+}
+
 // Disarm drops what is still armed (the call above did not get here).
 func (f *Faulty) Disarm() {
 	f.mu.Lock()
-	f.delErr, f.commitErr, f.nextErr = nil, nil, nil
+	f.delErr, f.commitErr, f.nextErr, f.getErr = nil, nil, nil, nil
 	f.mu.Unlock()
 }
 
